@@ -389,7 +389,7 @@ func c17Build(p *c17Prog, r *rand.Rand, variant int) (c17Case, bool) {
 		rs := []rune(w)
 		quoted := pick(r, []string{"'" + w + "'", `"` + w + `"`, `\` + w, string(rs[:1]) + "''" + string(rs[1:]), string(rs[:1]) + `\` + string(rs[1:]),
 			// the alias name followed by a quoted / expanded part: one word, not the alias
-			w + "''", w + `""`, w + "'x'", w + "$s", w + `\x`, w + `"$@"`, w + "${s}", w + "$(:)"})
+			w + "''", w + `""`, w + "'x'", w + "$s", w + `\x`, w + `"$@"`, w + "${s}", w + "$(" + map[bool]string{true: "true", false: ":"}[w == ":"] + ")"})
 		if len(rs) == 1 && len([]rune(quoted)) < 3 {
 			quoted = "'" + w + "'"
 		}
